@@ -4,6 +4,7 @@ from __future__ import annotations
 import ast
 
 from sa.cfg import build_cfg, node_exprs
+from sa.guards import guard_states
 from sa.effects import Effects, MUTATORS
 from sa.loader import AnalysisError, norm_text
 from sa.resolve import Scope, own_nodes, bind_args, call_sites
@@ -133,11 +134,30 @@ def run(project, chk):
     floop = find_file_loop(main)
     loop_var = floop.target.id
     sc = Scope(project, main)
+    # options added after the pinned tree that are off by default: what runs only under them is outside the property's settings
+    from checks._cli import new_default_off_options, runs_only_with_new_option
+    from sa.wire import Origins as _Org
+    new_opts = new_default_off_options(project, main)
+    mcfg = build_cfg(main.node)
+    mG = guard_states(mcfg)
+    morg = _Org(project, main, mcfg)
+
+    def main_node_of(a):
+        try:
+            return morg.node_for(a).id
+        except KeyError:
+            return None
 
     n_w = 0
     for fq, s in writes:
         f2 = project.funcs[fq]
         loc = project.loc(f2.module, s.node)
+        if fq == main.qualname and new_opts:
+            nid = main_node_of(s.node)
+            opt = runs_only_with_new_option(mG, nid, new_opts) if nid is not None else None
+            if opt is not None:
+                chk.ok("Q1", f"{loc} {f2.short}", f"{norm_text(s.node)[:60]} runs only when the new option `{opt}` is given (off by default; not one of the settings the property quantifies over)", "control dependence on a parameter of main that the pinned command does not have")
+                continue
         n_w += 1
         if s.mode is None or not set(s.mode) <= set("wbt+x") or "w" not in s.mode and "x" not in s.mode:
             chk.fail("Q1", f2.short, norm_text(s.node), loc, f"file opened with mode {s.mode!r}: existing files can be modified in place")
@@ -169,6 +189,12 @@ def run(project, chk):
                 for (cfi, cm, call) in call_sites(project, fq):
                     if cfi is None or cfi.qualname not in reach:
                         continue
+                    if cfi.qualname == main.qualname and new_opts:
+                        nid = main_node_of(call)
+                        opt = runs_only_with_new_option(mG, nid, new_opts) if nid is not None else None
+                        if opt is not None:
+                            detail.append(f"{cfi.short}: (only with the new option {opt})")
+                            continue
                     b = bind_args(f2, call)
                     a = b.get(pname, f2.defaults().get(pname))
                     v = const_str(a) if a is not None else None
@@ -280,6 +306,8 @@ def run(project, chk):
                 if isinstance(c, ast.Call) and isinstance(c.func, ast.Attribute) and c.func.attr == "write" and c.args:
                     recv = org.of(node.id, c.func.value)
                     if recv[0] == "with" and recv[1][0] == "call" and recv[1][1] == "builtins.open":
+                        if new_opts and runs_only_with_new_option(guard_states(cfg), node.id, new_opts) is not None:
+                            continue        # written only under an option the pinned command does not have (Q1 records it)
                         n_out += 1
                         o = org.of(node.id, c.args[0])
                         ok = False
